@@ -489,6 +489,91 @@ def do_toolkit(repo, entries, missing, summary):
         summary.append("kern_bounds %s: %d functions (callees by contract)" % (cfg, nf))
 
 
+# ---------------------------------------------------------------- incremental AEAD (audit 2, gap 7b)
+# The nine public functions of src/aead/ascon-aead-inc-{128,128a,80pq}.c, executed from entry to return on three state layouts
+# (tools/kern_ct.py's linker: the translation unit + ascon-aead-common.c + ascon-aead-util.c + the byte-range file of the back end +
+# ascon-clean.c; ONLY ascon_permute is a contract: 40 bytes of the state rewritten) with every object a region of EXACTLY its
+# documented size: the state object sizeof(ascon*_state_t) = 80 bytes, the key 16 / 20 bytes, nonce and tag 16 bytes, associated
+# data and in/out chunks exactly `len` bytes (NULL for empty associated data).  Runs LAST: kern_ct installs the word-arithmetic
+# expansion of symx_arith (needed by ascon_aead_check_tag inside *_decrypt_finalize), which must not touch the runs above.
+INC_ALGS = (("ascon128", "128", 16, 8), ("ascon128a", "128a", 16, 16), ("ascon80pq", "80pq", 20, 8))
+INC_CFGS = ("default", "c32", "directxor")
+
+
+def inc_lens(r):
+    return [0, 1, r - 1, r, r + 1, 2 * r + 3]
+
+
+def inc_cases(kc, alg, klen, rate):
+    """-> [(function, args record, llvm args, [Data], byte regions)]"""
+    D = kc.Data
+    po = 72 if klen == 16 else 76            # offsetof(posn): public bookkeeping inside the object
+    noff = 40 + klen                         # offsetof(nonce)
+    null = ("ptr", None, 0)
+    out = []
+    for op, fresh in (("init", True), ("reinit", False)):
+        for n in ((0, 1) if fresh else (0, 1, 2)):
+            for k in (0, 1):
+                out.append((alg + "_aead_" + op, {"k": k, "npub": n},
+                            [("ptr", "state", 0), ("ptr", "state", noff) if n == 2 else ("ptr", "npub", 0) if n else null, ("ptr", "k", 0) if k else null],
+                            [D("state", 80, out=True) if fresh else D("state", 80, pub_at={po: 3}), D("npub", 16), D("k", klen)], ("npub", "k")))
+    for a in inc_lens(rate):
+        out.append((alg + "_aead_start", {"adlen": a}, [("ptr", "state", 0), ("ptr", "ad", 0) if a else null, ("int", a)],
+                    [D("state", 80, pub_at={po: 0}), D("ad", a)], ("ad",)))
+    for op in ("encrypt_block", "decrypt_block"):
+        for alias in (0, 1):
+            for p in (0, 1, rate - 1):
+                for n in inc_lens(rate):
+                    out.append((alg + "_aead_" + op, {"alias": alias, "len": n, "posn": p},
+                                [("ptr", "state", 0), ("ptr", "in", 0), ("ptr", "in" if alias else "out", 0), ("int", n)],
+                                [D("state", 80, pub_at={po: p}), D("in", n)] + ([] if alias else [D("out", n, out=True)]), ("in", "out")))
+    for p in range(rate):
+        out.append((alg + "_aead_encrypt_finalize", {"posn": p}, [("ptr", "state", 0), ("ptr", "tag", 0)], [D("state", 80, pub_at={po: p}), D("tag", 16, out=True)], ("tag",)))
+        out.append((alg + "_aead_decrypt_finalize", {"posn": p}, [("ptr", "state", 0), ("ptr", "tag", 0)], [D("state", 80, pub_at={po: p}), D("tag", 16)], ("tag",)))
+    out.append((alg + "_aead_free", {}, [("ptr", "state", 0)], [D("state", 80, pub_at={po: 0})], ()))
+    out.append((alg + "_aead_free", {"null": 1}, [null], [], ()))
+    return out
+
+
+def do_inc_aead(repo, entries, missing, summary):
+    import kern_ct as kc
+    for cfg in INC_CFGS:
+        tag = "aead-inc/" + cfg
+        nf = 0
+        for alg, suf, klen, rate in INC_ALGS:
+            src = "aead/ascon-aead-inc-%s.c" % suf
+            srcs = [src, "aead/ascon-aead-common.c", "aead/ascon-aead-util.c"] + kc.CORE[cfg] + ["core/ascon-clean.c"]
+            try:
+                mod = kc.load(repo, srcs, cfg)
+            except Stuck as ex:
+                missing.append("kern_bounds %s: %s" % (tag, str(ex)[:300])); continue
+            known = set()
+            for fn, rec, args, datas, byte_regions in inc_cases(kc, alg, klen, rate):
+                known.add("@" + fn)
+                if "@" + fn not in mod.funcs:
+                    missing.append("kern_bounds %s: function %s not found in %s" % (tag, fn, src)); continue
+                bx = type("BX", (BExec,), {"byte_regions": set(byte_regions)})
+                regions = {d.name: d.size for d in datas}
+                try:
+                    ex, leak = kc.run_once(mod, "@" + fn, args, datas, "sym", havoc=kc.PERM, exec_cls=bx)
+                    fp = [(d.name, d.size, sorted(ex.mem.regions[d.name].written)) for d in datas]
+                    verdict, msg, det = "ok", "", "; ".join("%s[%d]:w=%s" % (nm, sz, rng_text(w)) for nm, sz, w in fp if sz)
+                except Stuck as e2:
+                    verdict, msg, det = "stuck", str(e2), ""
+                except (KeyError, AttributeError, TypeError, IndexError, ValueError, RecursionError) as e2:
+                    verdict, msg, det = "stuck", "executor error: %r" % (e2,), ""
+                entries.append({"config": tag, "file": src, "defines": list(kc.CFG_DEFS[cfg]), "function": fn, "args": rec, "valid": True, "verdict": verdict,
+                                "kind": stuck_kind(msg) if verdict == "stuck" else "", "detail": msg or det, "regions": regions})
+                nf += 1
+            # a function added to the file must get a declared shape
+            txt_funcs = [f for f in llvmx.Module(llvmx.compile_ll(os.path.join(repo, "src", src), defs=kc.CFG_DEFS[cfg],
+                                                                   incs=[os.path.join(repo, "src"), os.path.join(repo, "src", "ascon")])).funcs]
+            for f in txt_funcs:
+                if f not in known:
+                    missing.append("kern_bounds %s: function %s has no declared region shape (new function?)" % (tag, f))
+        summary.append("kern_bounds %s: %d runs (ascon_permute by contract)" % (tag, nf))
+
+
 # ---------------------------------------------------------------- output
 def coq_string(s):
     s = s.replace('"', "'")
@@ -519,11 +604,13 @@ def emit(entries, out):
 def input_hash(repo):
     h = hashlib.sha256()
     d = os.path.join(repo, "src")
-    for sub in ("masking", "core"):
+    for sub in ("masking", "core", "aead"):
         for f in sorted(os.listdir(os.path.join(d, sub))):
-            if f.endswith((".c", ".h", ".S")) and (sub == "masking" or f.endswith(".h")):
+            if f.endswith((".c", ".h", ".S")) and (sub != "core" or f.endswith(".h") or f in ("ascon-sliced64.c", "ascon-sliced32.c", "ascon-direct-xor.c", "ascon-clean.c")):
                 h.update(f.encode()); h.update(open(os.path.join(d, sub, f), "rb").read())
-    for f in ("kern_bounds.py", "llvmx.py", "symx.py", "asm_x86.py"):
+    for f in ("ascon/aead.h", "ascon/permutation.h"):
+        h.update(f.encode()); h.update(open(os.path.join(d, f), "rb").read())
+    for f in ("kern_bounds.py", "llvmx.py", "symx.py", "asm_x86.py", "kern_ct.py", "symx_arith.py"):
         h.update(open(os.path.join(VERIF, "tools", f), "rb").read())
     return h.hexdigest()
 
@@ -552,6 +639,7 @@ def main():
     do_asm_word(repo, entries, missing, summary)
     do_asm_perm(repo, entries, missing, summary)
     do_toolkit(repo, entries, missing, summary)
+    do_inc_aead(repo, entries, missing, summary)          # last (see the comment there)
     emit(entries, vpath + ".tmp")
     # keep the old file (and its .vo) when nothing changed
     if os.path.exists(vpath) and open(vpath).read() == open(vpath + ".tmp").read():
@@ -562,7 +650,8 @@ def main():
         if e["verdict"] == "stuck" and e["kind"] in ("other", "datadep") and e["valid"]:
             missing.append("kern_bounds %s: %s %s could not be executed (%s)" % (e["config"], e["function"], json.dumps(e["args"], sort_keys=True), e["detail"][:160]))
     nst = sum(1 for e in entries if e["verdict"] == "stuck" and e["valid"])
-    summary.append("kern_bounds: %d symbolic runs in %d configurations (masked word/state/key toolkit and masked permutations, C and x86-64 asm, MAX_SHARES 2..4): "
+    summary.append("kern_bounds: %d symbolic runs in %d configurations (masked word/state/key toolkit and masked permutations, C and x86-64 asm, MAX_SHARES 2..4; "
+                   "incremental AEAD functions on three state layouts): "
                    "%d stuck on valid arguments, %d stuck on out-of-contract probes" %
                    (len(entries), len(set(e["config"] for e in entries)), nst, sum(1 for e in entries if e["verdict"] == "stuck" and not e["valid"])))
     json.dump({"hash": hsh, "repo": repo, "entries": entries, "missing": missing, "summary": summary}, open(jpath, "w"), indent=0)
